@@ -184,6 +184,12 @@ func encHook(id, beh string, enc *jsontext.Encoder, label string, idx int) error
 			return err
 		}
 		return errors.ErrUnsupported
+	case "unsup-open":
+		// begins a container (so the coder was used) and then gives up
+		if err := enc.WriteToken(jsontext.BeginArray); err != nil {
+			return err
+		}
+		return errors.ErrUnsupported
 	case "err":
 		return errCustom
 	case "err-after":
@@ -394,6 +400,12 @@ func decHook(id, beh string, dec *jsontext.Decoder, set func(string)) error {
 		return errors.ErrUnsupported
 	case "unsup-after":
 		if err := one(); err != nil {
+			return err
+		}
+		return errors.ErrUnsupported
+	case "unsup-open":
+		// reads one token (so the coder was used) and then gives up
+		if _, err := dec.ReadToken(); err != nil {
 			return err
 		}
 		return errors.ErrUnsupported
